@@ -319,5 +319,6 @@ FIXED_LOG = [
  "fixed: property=C05 aaa111e convertible functions nested in built-in function arguments were lost (10 A=ABS(INT(B)) gave 'A := ABS')",
  "fixed: property=C08 33a0196 '& H FF' raised VisitationError(ValueError) while '&HFF' converted",
  "fixed: property=C02 dcd1581 bare NEXT after an explicit NEXT of an inner loop was given the inner loop's variable",
+ "fixed: property=C07 346ca10 HCIRCLE with omitted colour printed a hoisted call inside the argument list (10 HCIRCLE(1,2),3,,INT(A))",
  "fixed: property=C20 7a287a6 ecb_instr never assigned its result (wrong substring length, loop one short, no 0 for no match)"
 ]
